@@ -262,6 +262,7 @@ def case_hist(c):
             pt.reset()
         prev = [None, None]
         ph = ([], [])
+        held = []        # results of earlier calls, held without copying (as `[q.quantize(b) for b in blocks]` would) + copies
         for step, op in enumerate(hist):
             h = hist[:step + 1]
             known = done.get(h)
@@ -304,6 +305,12 @@ def case_hist(c):
                     done[h] = FAIL
                     return None
                 sig = (q.tobytes(), after)
+                for hq, hc in held:
+                    if hq.shape != hc.shape or not np.array_equal(hq, hc):
+                        V(site, 'returned_array_overwritten', 'the result of an earlier call was modified by this call', h)
+                        done[h] = FAIL
+                        return None
+                held.append((q, q.copy()))
                 if known is None:
                     ok, exp = part.verify(plan, tag, q, before, after, h)
                     _account(plan, exp, q, tag, prev[0])
@@ -340,6 +347,12 @@ def case_hist(c):
                     done[h] = FAIL
                     return None
                 sig = (q.tobytes(), a_r, a_i)
+                for hq, hc in held:
+                    if hq.shape != hc.shape or not np.array_equal(hq, hc):
+                        V(site, 'returned_array_overwritten', 'the result of an earlier call was modified by this call', h)
+                        done[h] = FAIL
+                        return None
+                held.append((q, q.copy()))
                 if known is None:
                     qr = _int_component(site, 'real', np.real(q), V, h)
                     qi = _int_component(site, 'imaginary', np.imag(q), V, h)
